@@ -2,6 +2,8 @@ import SyneTune.Lemmas.TunerBudget
 import SyneTune.Lemmas.TunerIds
 import SyneTune.Lemmas.TunerLife
 import SyneTune.Lemmas.TunerNotify
+import SyneTune.Lemmas.TunerPolled
+import SyneTune.Lemmas.TunerWitness
 /-
 C01 — worker budget and legal trial life cycle in every tuning run.
 Property theorems only.  Model: `Model/Tuner.lean` (the tuning loop as a machine that calls
@@ -16,7 +18,12 @@ The contracts on the environment are explicit hypotheses:
 * `KOk` (scheduler, contract K): `resume(id)` is only suggested for a trial whose run this
   scheduler ended with PAUSE and which was not resumed / reported failed since;
 * `NCOk`: no STOP / PAUSE decision on a result of a trial that the same poll reports as failed
-  (no PAUSE for one reported as stopped from outside) — see `notify_end_clash_counterexample`.
+  (no PAUSE for one reported as stopped from outside) — see `notify_end_clash_counterexample`;
+* `RebindOk`: the answer of `busy_trial_ids` is never shorter than the loop's running set (always
+  true with `start_jobs_without_delay=True`, where the question is not asked) — see
+  `notify_polled_counterexample` (F15).
+The witnesses of the counterexamples are in `Lemmas/TunerWitnessData.lean`; the check replays them
+on the real `Tuner`.
 -/
 namespace SyneTune.C01
 open SyneTune SyneTune.Tuner
@@ -93,5 +100,102 @@ theorem notify_partial (c : Cfg) (as : List Ans)
     NotifyOK (run (init c) as) := by
   obtain ⟨hS, hI, hD⟩ := SKD_run c as hB hK hN
   exact notifyOK_of_inv hS hI hD
+
+/-- **Notifications (completeness part), partial.** If the local `running_trials_ids` of
+`_schedule_new_tasks` is never rebound (`RebindOk`), then at every poll every trial whose run
+is open for the scheduler (started or resumed, end not yet notified) is among the trials
+polled: `fetch_status_results` is called with the running set and that set holds all of them.
+So its results, and its end, reach the scheduler as soon as the backend reports them.
+Full statement (without `hR`) is false: `notify_polled_counterexample`. -/
+theorem notify_polled_partial (c : Cfg) (as : List Ans) (hR : Along RebindOk (init c) as)
+    (hp : (run (init c) as).pc = .fetch) :
+    pending (run (init c) as) = .fetch (run (init c) as).running ∧
+    ∀ t, alookup t (run (init c) as).kst = some .live → t ∈ (run (init c) as).running := by
+  refine ⟨by unfold pending; rw [hp], fun t ht => ?_⟩
+  have hb := (PInv_run c as hR).body (by rw [hp]; rfl)
+  rcases hb.tracked t ht with h1 | h1
+  · exact h1
+  · rcases h1.1 with h2 | h2 <;> (rw [hp] at h2; cases h2)
+
+/-- the hypothesis of `notify_polled_partial` holds for free with `start_jobs_without_delay=True` -/
+theorem notify_polled_swd (c : Cfg) (hs : c.swd = true) (as : List Ans) (hp : (run (init c) as).pc = .fetch) :
+    ∀ t, alookup t (run (init c) as).kst = some .live → t ∈ (run (init c) as).running :=
+  (notify_polled_partial c as (rebindOk_of_swd c hs as) hp).2
+
+/-- **F15 — a started trial is never polled.** With `start_jobs_without_delay=False`, two
+workers: the backend's busy list `[1]` is shorter than the running set `{0, 1}`, so
+`_schedule_new_tasks` rebinds its local `running_trials_ids`; trial 2 is started and added to the
+rebound set only.  All contracts hold (B, K, no end clash), yet at the next poll trial 2 — started,
+known to the scheduler as live, in progress in the backend and in the tuning status — is not in the
+running set; and in the rest of the run (`f15Rest`: the other trials complete, `run()` returns
+normally) no poll ever names trial 2 and the scheduler never hears of its end. -/
+theorem notify_polled_counterexample :
+    Witness.f15Cfg.swd = false ∧
+    Along BOk (init Witness.f15Cfg) (Witness.f15Prefix ++ Witness.f15Rest) ∧
+    Along KOk (init Witness.f15Cfg) (Witness.f15Prefix ++ Witness.f15Rest) ∧
+    Along NCOk (init Witness.f15Cfg) (Witness.f15Prefix ++ Witness.f15Rest) ∧
+    (run (init Witness.f15Cfg) Witness.f15Prefix).pc = .fetch ∧
+    pending (run (init Witness.f15Cfg) Witness.f15Prefix) = .fetch [0, 1] ∧
+    alookup 2 (run (init Witness.f15Cfg) Witness.f15Prefix).kst = some .live ∧
+    alookup 2 (run (init Witness.f15Cfg) Witness.f15Prefix).bst = some .inProgress ∧
+    alookup 2 (run (init Witness.f15Cfg) Witness.f15Prefix).status.last = some .inProgress ∧
+    -- the whole run
+    (run (init Witness.f15Cfg) (Witness.f15Prefix ++ Witness.f15Rest)).pc = .done ∧
+    (run (init Witness.f15Cfg) (Witness.f15Prefix ++ Witness.f15Rest)).err = none ∧
+    alookup 2 (run (init Witness.f15Cfg) (Witness.f15Prefix ++ Witness.f15Rest)).kst = some .live ∧
+    noCall (fun c => match c with
+        | .fetch ids => ids.contains 2 | .schedComplete t _ => t == 2 | .schedError t => t == 2
+        | .schedRemove t => t == 2 | .schedResult t _ => t == 2 | _ => false)
+      (run (init Witness.f15Cfg) (Witness.f15Prefix ++ Witness.f15Rest)).log = true := by
+  refine ⟨rfl, along_of bOk_of (by decide +kernel), along_of kOk_of (by decide +kernel),
+    along_of ncOk_of (by decide +kernel), ?_, ?_, ?_, ?_, ?_, ?_, ?_, ?_, ?_⟩ <;> decide +kernel
+
+/-- the hypothesis that `notify_polled_partial` adds is exactly what the witness breaks -/
+example : alongB rebindOkB (init Witness.f15Cfg) Witness.f15Prefix = false := by decide +kernel
+
+/-- **The end of a run is notified twice.** One worker; the poll reports trial 0 as failed
+together with a result on which the scheduler decides STOP.  B and K hold, yet
+`on_trial_error(0)` is the pending call for a trial whose run the loop has already closed with
+`on_trial_remove(0)` (`kst 0 = dead`): `NotifyOK` fails. -/
+theorem notify_end_clash_counterexample :
+    Along BOk (init Witness.clashCfg) Witness.clashPrefix ∧
+    Along KOk (init Witness.clashCfg) Witness.clashPrefix ∧
+    Along RebindOk (init Witness.clashCfg) Witness.clashPrefix ∧
+    pending (run (init Witness.clashCfg) Witness.clashPrefix) = .schedError 0 ∧
+    alookup 0 (run (init Witness.clashCfg) Witness.clashPrefix).kst = some .dead ∧
+    (run (init Witness.clashCfg) Witness.clashPrefix).log.contains (.schedRemove 0) = true ∧
+    ¬ NotifyOK (run (init Witness.clashCfg) Witness.clashPrefix) := by
+  have h1 : (run (init Witness.clashCfg) Witness.clashPrefix).pc = .errorS := by decide +kernel
+  have h2 : (run (init Witness.clashCfg) Witness.clashPrefix).t = 0 := by decide +kernel
+  have h3 : alookup 0 (run (init Witness.clashCfg) Witness.clashPrefix).kst = some .dead := by decide +kernel
+  refine ⟨along_of bOk_of (by decide +kernel), along_of kOk_of (by decide +kernel),
+    along_of rebindOk_of (by decide +kernel), by decide +kernel, h3, by decide +kernel, fun hN => ?_⟩
+  have := hN.error h1
+  rw [h2, h3] at this
+  cases this
+
+/-- the hypothesis that `notify_partial` adds is exactly what the witness breaks -/
+example : alongB ncOkB (init Witness.clashCfg) Witness.clashPrefix = false := by decide +kernel
+
+/-! ### concrete instances -/
+
+/-- the state the F15 witness reaches: two trials in the running set, three started -/
+example : (run (init Witness.f15Cfg) Witness.f15Prefix).running = [0, 1] ∧
+    startIds (run (init Witness.f15Cfg) Witness.f15Prefix).log = [0, 1, 2] ∧
+    (run (init Witness.f15Cfg) Witness.f15Prefix).status.last = [(0, .inProgress), (1, .inProgress), (2, .inProgress)] := by
+  decide +kernel
+
+example : (run (init Witness.f15Cfg) Witness.f15Prefix).running.length ≤ 2 :=
+  (budget Witness.f15Cfg Witness.f15Prefix).2.1
+
+example : startIds (run (init Witness.f15Cfg) Witness.f15Prefix).log = List.range 3 := by
+  have := ids Witness.f15Cfg Witness.f15Prefix
+  rwa [show (startIds (run (init Witness.f15Cfg) Witness.f15Prefix).log).length = 3 by decide +kernel] at this
+
+/-- a life-cycle step of the end-clash witness: trial 0 moves in progress → failed when the
+iteration's `tuning_status.update` runs -/
+example : alookup 0 (run (init Witness.clashCfg) (Witness.clashPrefix ++ [.ret, Witness.τ])).status.last = some .inProgress ∧
+    alookup 0 (run (init Witness.clashCfg) (Witness.clashPrefix ++ [.ret, Witness.τ, Witness.τ])).status.last = some .failed := by
+  decide +kernel
 
 end SyneTune.C01
